@@ -198,7 +198,7 @@ func main() {
 		}
 		p := pr.Generate(seed, rng.New(rng.Derive(seed, 77)))
 		p.Free = *free
-		wantTrace := *keep || len(sum.Samples) < 2
+		wantTrace := *keep || (len(sum.Samples) < 2 && !simrt.RaceBuild)
 		out := sim.RunPlan(pr, p, wantTrace)
 		sum.Runs++
 		sum.LastSeed = seed
